@@ -33,7 +33,9 @@ def sweep(tier="quick", seed=0, unsupported=()):
 
 def replay(contract, label, model, note=""):
     f, n = tr.sweep_c09("quick", 0)
-    f = [x for x in f if x["what"].startswith("C09/")]
+    f8, n8 = tr.sweep_c08("quick", 0)
+    want = contract.split(".")[0].split("[")[0]
+    f = [x for x in f + f8 if f"/{want}/" in x["what"]] or [x for x in f if x["what"].startswith("C09/") and "Homeostasis" not in x["what"]]
     if f:
         return {"reproduced": True, "failure": f[0], "concrete": f[0]["input"], "search": {"points_tried": n}}
     return {"reproduced": False, "search": {"points_tried": n}}
